@@ -146,7 +146,7 @@ pub fn profile(id: &str) -> Option<Profile> {
         }
         "C04" => (Kind::Crash, 600, 20_000),
         "C05" => (Kind::Crash, 600, 20_000),
-        "C12" => (Kind::Crash, 400, 15_000),
+        "C12" => (Kind::Crash, 240, 15_000),
         "C17" => (Kind::Fault, 150, 4_000),
         "C09" => (Kind::Conformance, 3000, 150_000),
         "C14" => (Kind::Malformed, 20_000, 1_000_000),
